@@ -12,7 +12,9 @@ EXPLANATION = (
     "Static decision of the premises of the routing invariant id = map key = descriptor: every epoll "
     "registration carries data == fd as u64 (wrappers), the map key at insertion is the stream's own "
     "as_raw_fd() that was registered, every ServerRequest built in requests() takes its id from data() "
-    "of the very event whose fd() keyed the lookup of the connection that was read, process() hands the "
+    "of the very event whose fd() keyed the lookup of the connection that was read and is added to the "
+    "vector requests() returns, which inside the event loop is only accumulated into (never reassigned, "
+    "drained or handed away), process() hands the "
     "request's id to the response, respond() derives its key only from the response's id and enqueues only "
     "into the entry it looked up; entries leave the map only in the sweep and only when is_done(), "
     "which requires Closed, no pending write and in_flight == 0; the in-flight counter grows by the "
@@ -26,7 +28,7 @@ NOT_DECIDED = "well-formedness of every byte a client receives (C05/C06); histor
 
 
 def run(ctx):
-    ctx.rule("R07.1", "ServerRequest ids come from data() of the event whose fd() keyed the lookup of the connection read")
+    ctx.rule("R07.1", "ServerRequest ids come from data() of the event whose fd() keyed the lookup of the connection read; each wrapped request reaches the returned vector, which the event loop only accumulates into")
     ctx.rule("R07.2", "every epoll registration has data == fd as u64; map key == registered fd")
     ctx.rule("R07.3", "respond(): key derived only from the response's id; enqueue only into the looked-up entry; unknown id dropped")
     ctx.rule("R07.4", "entries are removed only by the sweep, only when is_done(), with epoll_del")
@@ -50,6 +52,20 @@ def ids(ctx):
     facts = ctx.facts
     fn, lv = leaves(ctx, srv.REQUESTS)
     n = 0
+    acc_blocks = srv.yield_vector(ctx, "R07.1")
+
+    def reaches_yield(lf, t):
+        """is the wrapped value `t` handed to an accumulating call on the yielded vector on this path?"""
+        key = norm(t)
+        rk = ret_kind(lf)
+        if rk and rk[0] in ("Err", "prop"):
+            return True         # requests() fails: nothing is yielded on this path, by any spelling
+        for e in lf.events:
+            if e[0] == "call" and ((getattr(e[1], "fn", None) or fn).name, int(e[1])) in acc_blocks:
+                if any(isinstance(s_, tuple) and norm(s_) == key for a in e[4][2][1:] for s_ in subterms(a)):
+                    return True
+        return False
+
     for lf in lv:
         rd = calls(lf, CC + "read")
         if not rd:
@@ -76,6 +92,7 @@ def ids(ctx):
             src_ok = it is not None and payload_of(it) is not None and norm(payload_of(it)) == norm(rd[0][4])
             ctx.ob("R07.1", "wrap|id-is-event-data", id_ok, "ServerRequest::new(request, e.data()) with e the event being handled", fn.loc(w[1]))
             ctx.ob("R07.1", "wrap|over-requests-just-read", src_ok, "each wrapped request is an item of the vector read() just returned for that event", fn.loc(w[1]))
+            ctx.ob("R07.1", "wrap|yielded", reaches_yield(lf, w[4]), "the wrapped request is added to the vector requests() returns", fn.loc(w[1]))
         # the closure mapping requests to ServerRequest captures this very event
         maps = [e for e in lf.events if e[0] == "call" and last_seg(e[3]) == "map" and "Iterator" in e[3]]
         for m in maps:
@@ -91,6 +108,7 @@ def ids(ctx):
             src_ok = is_call(src, "into_iter") and norm(strip_try(look(src[2][0]))) == norm(rd[0][4])
             ctx.ob("R07.1", "wrap|captures-this-event", cap_ok, "the closure that wraps requests captures the event being handled (or its data() taken just before)", fn.loc(m[1]))
             ctx.ob("R07.1", "wrap|over-requests-just-read", src_ok, "it is mapped over the requests read() just returned for that event", fn.loc(m[1]))
+            ctx.ob("R07.1", "wrap|yielded", reaches_yield(lf, m[4]), "the wrapped requests are added to the vector requests() returns", fn.loc(m[1]))
             fc, lc = leaves(ctx, clo[1])
             for l2 in lc:
                 r = look(l2.ret())
